@@ -11,6 +11,8 @@
 (*   SealSwap    Lock, sealed := new, active := nil, Unlock, sealWg.Done   *)
 (*   SealRelease Active.Release: useMu.Lock, released := true, Unlock, free*)
 (*   DelTry / DelWait / DelActive / DelSealed   proxyFrac.Suicide          *)
+(*   DelDirect   Sealed.Suicide called on the sealed fraction itself (the   *)
+(*              manager's list after the seal), the proxy left untouched   *)
 (*   ReadAsk     a request that holds the proxy in its fraction list asks  *)
 (*              it a question that goes through proxyFrac.cur() (Info,     *)
 (*              IsIntersecting, Contains) before it reads                  *)
@@ -90,12 +92,17 @@ ReadAcquire(r) == /\ pcR[r] = "asked" /\ ~pW          \* under proxy RLock: choo
       ELSE (using' = [using EXCEPT ![r] = "empty"] /\ UNCHANGED <<aR, sR>>))
    /\ pcR' = [pcR EXCEPT ![r] = "use"]
    /\ U(<<hasA, hasS, ro, pR, pW, aW, aReleased, aSuicided, sW, sSuicided, indexWg, sealWg, admitted, indexed, sealedDocs, pcA, pcS, pcD>>)
-ReadRelease(r) == /\ pcR[r] = "use" /\ pcR' = [pcR EXCEPT ![r] = "done"]
+ReadReleaseTo(r, nxt) == /\ pcR[r] = "use" /\ pcR' = [pcR EXCEPT ![r] = nxt]
    /\ aR' = (IF using[r] = "active" THEN aR - 1 ELSE aR) /\ sR' = (IF using[r] = "sealed" THEN sR - 1 ELSE sR)
    /\ using' = [using EXCEPT ![r] = "none"]
    /\ U(<<hasA, hasS, ro, pR, pW, aW, aReleased, aSuicided, sW, sSuicided, indexWg, sealWg, admitted, indexed, sealedDocs, pcA, pcS, pcD>>)
+ReadRelease(r) == ReadReleaseTo(r, "done")        \* ProxyFracTrace lets a reader come back ("asked") instead
+\* ---- the manager's list after a finished seal holds the sealed fraction itself (fracmanager.go: activeRef.ref.instance =
+\* sealed); retention then calls Sealed.Suicide directly while requests that took the list earlier still hold the proxy
+DelDirect == /\ pcD = "start" /\ pcS = "done" /\ hasS /\ sR = 0 /\ ~sW /\ sSuicided' = TRUE /\ pcD' = "done"
+   /\ U(<<hasA, hasS, ro, pR, pW, aR, aW, aReleased, aSuicided, sR, sW, indexWg, sealWg, admitted, indexed, sealedDocs, pcA, pcS, pcR, using>>)
 Next == (\E a \in Appenders : AppAdmit(a) \/ AppIndex(a)) \/ SealBegin \/ SealWrite \/ SealSwap \/ SealRelease
-        \/ DelTry \/ DelWait \/ DelActive \/ DelSealed \/ (\E r \in Readers : ReadAsk(r) \/ ReadAcquire(r) \/ ReadRelease(r))
+        \/ DelTry \/ DelWait \/ DelActive \/ DelSealed \/ DelDirect \/ (\E r \in Readers : ReadAsk(r) \/ ReadAcquire(r) \/ ReadRelease(r))
 Spec == Init /\ [][Next]_vars
 OnlyFourStates == \/ (hasA /\ ~hasS /\ ~ro) \/ (hasA /\ ~hasS /\ ro) \/ (~hasA /\ hasS /\ ro) \/ (~hasA /\ ~hasS)
 ReaderNeverSeesFreed == \A r \in Readers : (using[r] = "active" => ~aReleased) /\ (using[r] = "sealed" => ~sSuicided)
